@@ -161,13 +161,11 @@ Proof.
   contradiction.
 Qed.
 
-(* ---- kept finding: `in` is not wrapped by the mixin, so it tells an alias from the variable it names *)
-Theorem alias_not_a_member_refuted :
-  exists am s n, WFam am /\ Inv s /\ In n (akeys (amap am)) /\
-    snd (alias_read am (QContains (resolve am n)) s) = Ret (VBool true) /\
-    snd (alias_read am (QContains n) s) = Ret (VBool false) /\
-    alias_getitem am (KName n) s = alias_getitem am (KName (resolve am n)) s.
-Proof.
-  exists am3, (fst mA), "A". split; [exact (proj1 am3_wf)|]. split; [exact mA_inv|].
-  split; [vm_compute; left; reflexivity|]. vm_compute. repeat split.
-Qed.
+(* ---- the repaired defect (fix 0f38318): `in` answers for an alias what it answers for its variable *)
+Example alias_is_a_member :
+  snd (alias_read am3 (QContains "A") (fst mA)) = Ret (VBool true) /\
+  snd (alias_read am3 (QContains "y") (fst mA)) = Ret (VBool true) /\
+  snd (alias_read am3 (QContains "X") (fst mA)) = Ret (VBool true) /\
+  snd (alias_read am3 (QContains "Q") (fst mA)) = Ret (VBool false) /\
+  snd (alias_read (mkAobj [("A", "Q")] []) (QContains "A") (fst mA)) = Ret (VBool false).
+Proof. vm_compute. repeat split. Qed.
